@@ -45,8 +45,11 @@ ASSUMPTIONS = [
     'a cyclic-GC pass is an explicit event (a proxy kept alive only by an exception<->frame cycle counts as live until then)',
     'client processes that end by os._exit without dropping their proxies leak references by design; the check drops first',
     'keys differing only by trailing NUL bytes are one HMAC key (known finding under C18) and are not used as wrong keys',
+    'proxy calls that can wait forever (untimed Queue.get/put on a full queue, untimed RLock/Semaphore.acquire, '
+    'Event.wait(None)) are not generated, except Lock.acquire() whose holder always releases',
 ]
-RULE = ('case = (manager key, 1-3 base objects + 0-3 late objects of type list/dict/Namespace/Value/Array/Lock/Queue, '
+RULE = ('case = (manager key, 1-3 base objects + 0-3 late objects of type list/dict/Namespace/Value/Array/Lock/RLock/'
+        'Semaphore/BoundedSemaphore/Event/Queue, '
         'a tree of 1-3 client processes x 1-2 threads with programs of proxy operations (unique values), nonexposed '
         'method calls, pickle copies, drops, late creations, children receiving proxies by spawn-style or plain pickle, '
         '0-2 wrong-key clients of five kinds, short I/O, pipe capacity, policy); distinct = distinct (workload hash, '
@@ -54,8 +57,11 @@ RULE = ('case = (manager key, 1-3 base objects + 0-3 late objects of type list/d
         'by >= 2 threads, or a proxy life-cycle operation or a wrong-key attempt took place)')
 PROBES = ['two_server_threads_in_one_referent', 'decref_to_zero_while_other_increfs', 'proxy_rebuilt_in_child',
           'proxy_pickled_copy', 'remote_exception_reraised', 'wrong_key_refused', 'blocking_call_blocked_in_server',
-          'ident_reused', 'dropped_to_zero', 'late_create', 'nonexposed_refused', 'drop_needed_gc',
+          'dropped_to_zero', 'late_create', 'nonexposed_refused', 'drop_needed_gc',
           'shared_object_concurrent_ops', 'hostile_raw_refused']
+# 'ident_reused' (a new referent getting the id()-derived ident of a disposed one) is counted too but is not
+# listed: address reuse is decided by the allocator and cannot be steered from outside; with the stated
+# assumption (no stale tokens) it has no observable effect.
 
 ADDR = 'sim-mgr-1'
 TYPES = ['list', 'list', 'list', 'dict', 'dict', 'dict', 'ns', 'value', 'array', 'lock', 'queue', 'queue',
